@@ -1,5 +1,10 @@
-\* C10 quick: as MC_C10.cfg with the command mode fixed (no transition of the model reads cfg.cmd, so the
-\* two command modes have isomorphic state graphs): 262 144 configurations, every interleaving.
+\* C10 quick: every interleaving of the two ends over 4^4 levels x 8x8 method-list shapes x 2x2 cipher lists
+\* (one usable cipher, one not), command mode fixed: 65 536 configurations.  Measured throughput of this
+\* specification is 3-4 k states/s per worker, so the whole 524 288-configuration product (MC_C10.cfg) is
+\* left to the thorough tier; no transition reads cfg.cmd and the cipher lists act only through
+\* CommonCipher, so the reduced product reaches every transition of the model.  The configurations that
+\* are REPLAYED in the quick tier (all cipher-list pairs, both command modes) get their expectations and
+\* the same invariants from Gen_C10_rows.cfg.
 \* One TLC process per client authentication level (environment C10_CAUTH; C10_SAUTH="*").
 SPECIFICATION GenSpec
 CONSTANTS
@@ -9,8 +14,8 @@ CONSTANTS
   SEnc = {"REQUIRED", "PREFERRED", "OPTIONAL", "NEVER"}
   CMethods <- Lists8
   SMethods <- Lists8
-  CCiphers <- Ciphers4
-  SCiphers <- Ciphers4
+  CCiphers <- Ciphers2
+  SCiphers <- Ciphers2
   CmdModes = {TRUE}
   Shapes = {"full"}
   SameLists = FALSE
